@@ -1,8 +1,15 @@
-"""regenerates MANIFEST.json from the table below (run after adding a harness)"""
+"""regenerates MANIFEST.json from the harness modules (run with /verif/.venv/bin/python after adding a harness).
+
+Every harness module harness/cNN.py that defines a dict MANIFEST = {category, text, design, technique[, note]} becomes a
+claimed check; every other property of properties.jsonl is listed under not_applicable with the reason given in NA below
+(or in the module's NOT_APPLICABLE string)."""
+import importlib
 import json
 import os
+import sys
 
 ROOT = os.path.dirname(os.path.abspath(__file__))
+sys.path.insert(0, ROOT)
 
 COMMON_NOTE = ("Trusted base: z3; the shims A1-A10 listed in the evidence file (floats treated as reals; float casts of "
                "object payloads are no-ops; math.isclose / np.isclose as formulas; transcendental functions uninterpreted); "
@@ -10,22 +17,10 @@ COMMON_NOTE = ("Trusted base: z3; the shims A1-A10 listed in the evidence file (
                "are enumerated inside the stated bounds, only the continuous axes (values, scales, offsets, tolerances) are "
                "decided by the solver for all reals. Counterexamples are replayed with IEEE doubles on the unshimmed library.")
 
-CHECKS = {
-    "C03": dict(
-        category="other",
-        text=("Bounded symbolic execution of the real conversion code (symx): for every enumerated pair/triple of unit kinds and "
-              "every entry point, z3 proves identity, inverse, composition, route agreement and the affine SI oracle for ALL real "
-              "values, scales and offsets (unsat of pc & not P per path); any model is replayed on plain unyt. Bounded: kinds, "
-              "payload shapes <= (2,2); rounding is outside."),
-        design="DESIGN.md section 4 C03",
-        technique="symbolic execution of the real Python code over z3 real terms; SMT (QF_NRA) obligations per path; counterexample replay"),
-}
-
-NOT_YET = {
-}
-
 NA = {
 }
+
+DEFAULT_NA = "check not built yet in this round (planned: see DESIGN.md section 4); not claimed"
 
 
 def main():
@@ -34,8 +29,11 @@ def main():
     na = []
     for p in props:
         pid = p["id"]
-        if pid in CHECKS and os.path.exists(os.path.join(ROOT, "harness", pid.lower() + ".py")):
-            c = CHECKS[pid]
+        mod = None
+        if os.path.exists(os.path.join(ROOT, "harness", pid.lower() + ".py")):
+            mod = importlib.import_module("harness." + pid.lower())
+        c = getattr(mod, "MANIFEST", None) if mod else None
+        if c:
             checks.append(dict(
                 property_id=pid,
                 quick_cmd=f"./check {pid} --tier quick",
@@ -48,7 +46,8 @@ def main():
                 technique=c["technique"],
             ))
         else:
-            na.append(dict(property_id=pid, reason=NA.get(pid, "check not built yet in this round (planned: see DESIGN.md section 4); not claimed")))
+            reason = getattr(mod, "NOT_APPLICABLE", None) if mod else None
+            na.append(dict(property_id=pid, reason=reason or NA.get(pid, DEFAULT_NA)))
     m = dict(
         version=1,
         setup_cmd="./setup.sh",
